@@ -179,9 +179,9 @@ FRAGMENT_PROVED = ("stage S1 (all graphs with unique node ids / injective kind m
                    "`select count(*)::int8 [as c] from node n0 [where kinds]` (emitted when the MATCH has no user predicate and the optimiser is on) and the node frame + "
                    "`select count(s0.n0)::int8 [as c] from s0` both return the one row the reference semantics returns, the number of matching nodes. "
                    "stage S2b (all graphs that additionally have unique relationship ids, only relationship kinds known to the kind map and no relationship property stored as JSON "
-                   "null; all queries; BOTH join orders of the emitted statement): "
+                   "null; all queries; BOTH join orders of the emitted statement; the frame PRUNED to the bindings that are read (what the optimised translator emits) or complete): "
                    "MATCH (a[:K...])-[r[:T1|T2...]]->(b[:K...]) [WHERE c1 AND ... AND cn] RETURN items, one directed fixed hop, no ORDER BY / SKIP / LIMIT / DISTINCT, a, r, b pairwise "
-                   "distinct names and each of them read by some item; every conjunct ci is a predicate p of the S1 language over exactly ONE of a, r, b (for r a kind atom r:T means "
+                   "distinct names, any non-empty list of items over them; every conjunct ci is a predicate p of the S1 language over exactly ONE of a, r, b (for r a kind atom r:T means "
                    "type(r) = T); conjuncts that read two variables (a.x = b.y, a.x = 1 OR b.y = 2) are outside; items ::= x | id(x) | x.k [AS alias] for x in {a, r, b}; "
                    "the rows agree as a BAG (List.Perm), not as a list. "
                    "stage S2c (same graphs; both join orders of the first hop): chains of TWO or THREE directed fixed hops "
@@ -211,7 +211,7 @@ SPEC = {
     "extra_coverage": extra_coverage,
     "panic_is_violation": False,
     "rule": "tie 1 (suite c01tie): structured random queries of the PROVED fragment S1 (kinds x predicates x items x order/skip/limit) and S2b (kinds of a / r / b x 0-4 WHERE conjuncts, "
-            "each an S1 predicate of depth <= 2 over one of a, r, b x items over a, r, b) S2c (chains of 2-3 hops x kinds x items over all variables) and S1c (count(n) over a node pattern x kinds x optional predicate x alias; splitmix64(VERIF_SEED)) are translated by the REAL "
+            "each an S1 predicate of depth <= 2 over one of a, r, b x 1-4 items over any of a, r, b) S2c (chains of 2-3 hops x kinds x items over all variables) and S1c (count(n) over a node pattern x kinds x optional predicate x alias; splitmix64(VERIF_SEED)) are translated by the REAL "
             "translator; the reflection S-expression of Result.Statement must be EQUAL to the model translator's statement (and carry no parameters) — for a hop the model has TWO "
             "statements, one per join order (`S2.Query.trWith km false / true`): which one the translator picks is a selectivity heuristic over its Go syntax tree that scores only "
             "pointer-typed nodes, which the reflection rendering does not determine, so the direction is NOT modelled; the theorems hold for both and the tie accepts either (the "
@@ -259,14 +259,15 @@ MANIFEST = {
             "relationship property stored as JSON null) and every parsed query with tr2F flipOf km q = some (st, ps): if the statement yields a table then Cy.eval yields a result and the "
             "client rows are a PERMUTATION of each other (no ORDER BY in S2b; for S1 queries the lists are equal); tr_sound_S2b — the same said per hop query for both statements "
             "S2.Query.trWith km false / true; tr2_cypher_defined; tr2_no_runtime_error (only the model's `unmodelled` for `->>` of array/object properties); "
-            "c01_partial_S2 : forall flipOf, C01_bag_for (tr2F flipOf); tr2_some (tr2F answers only inside S1 or S2b); ofCy2_sound; graphOK2_of_check. The WHERE conjuncts over a / b are "
+            "c01_partial_S2 : forall flipOf prune, C01_bag_for (tr2F flipOf prune) — prune = the lowering ProjectionPruning: the frame s0 projects only the bindings a RETURN item or a WHERE "
+            "conjunct reads (kinds in the pattern do not count), in the order e0, n0, n1; tr2_some (tr2F answers only inside S1 or S2b); ofCy2_sound; graphOK2_of_check. The WHERE conjuncts over a / b are "
             "emitted inside the join conditions, those over r in the frame's WHERE; the predicate lemmas are entity-generic (Proofs/C01At.lean: sql_predAt / cy_predAt over a node or a "
-            "relationship under any table alias / variable). Stage S2c (chains): tr_sound_S2c / c01_partial_S3 : forall flipOf flipCh, C01_bag_for (tr3F flipOf flipCh) — the statement with "
+            "relationship under any table alias / variable). Stage S2c (chains): tr_sound_S2c / c01_partial_S3 : forall flipOf flipCh prune, C01_bag_for (tr3F flipOf flipCh prune) — the statement with "
             "frames s0 (the hop frame), s1 [, s2] (each `from s_(i-1) join edge e_i on (s_(i-1).n_i).id = e_i.start_id join node n_(i+1) on ... where [kinds and] e_i.id != (s_(i-1).e_j).id`) "
             "returns a permutation of the Cypher rows. Cypher side proved for chains of ANY length (Proofs/C01ChainCy.lean matchSteps_chain: the reference matcher enumerates exactly the "
             "extensions by a relationship not used yet), SQL side frame by frame for 2 and 3 hops (Proofs/C01ChainSql.lean frame1 / frame2, C01ChainSound.lean chain_sound); tr3_some; ofCyChain_sound. Stage S1c (count): tr_sound_S1c / count_sound — for every GraphOK graph, every query MATCH (n[:K...]) [WHERE p] RETURN count(n) [AS c] "
             "and both statement shapes (fast path on / off) the SQL row equals the Cypher row (Proofs/C01Count.lean: evalSelect_countA, fastStmt_eval, frameStmt_eval, cy_side_count — "
-            "implicit grouping with no key is one group, count(n) counts the non-null bindings); c01_partial_S4 : forall flipOf flipCh fast, C01_bag_for (tr4F flipOf flipCh fast); "
+            "implicit grouping with no key is one group, count(n) counts the non-null bindings); c01_partial_S4 : forall flipOf flipCh fast prune, C01_bag_for (tr4F flipOf flipCh fast prune); "
             "tr4_some; ofCyCount1_sound. FRAGMENT PROVED = " + FRAGMENT_PROVED + ". NOT PROVED: C01_full (the statement for a total "
             "translator) stays a visible Prop; the design's S1 remainder (DISTINCT, ORDER BY on properties, ordered and string-function property comparisons), the rest of S2 (undirected hops, chains with WHERE or of more than three hops, "
             "WHERE conjuncts that read two variables, ORDER BY over a hop) and S3..S5 are SEARCHED only. "
